@@ -1,5 +1,6 @@
 """control_breeze_device (C16) and the Breeze frames of C01 / C03 / C09: one symbolic run of the real method per request
 shape, observed by several properties"""
+from .common import frame_ok as _frame_ok
 import itertools
 import z3
 
@@ -245,7 +246,7 @@ def c16_obligations(ip, ctx, run, base):
         if ob[0] == "ret":
             last = reads[-1]
             obs.append(Obligation(base + "/result_is_last_reply", ctx, ip.equals(ob[1].attrs.get("unparsed_response"), last, ctx)))
-    obs.append(Obligation(base + "/assigns_nothing", ctx, not ctx.ghost.heap_writes and not ctx.ghost.module_writes,
+    obs.append(Obligation(base + "/assigns_nothing", ctx, _frame_ok(ctx)[0],
                           note=str([(type(o).__name__, a) for o, a in ctx.ghost.heap_writes][:2])))
     # never reports success after an empty reply
     if ob[0] == "ret":
